@@ -95,18 +95,18 @@ func main() {
 	// leg B: parallel per-package checker sets (own context each), sharing the registry, the embedded
 	// rule data and the file set
 	var wg sync.WaitGroup
+	// every goroutine analyses EVERY program with its own checker set, so that instances of the same checker
+	// work on the same kind of input at overlapping times
 	for g := 0; g < 6; g++ {
 		wg.Add(1)
 		go func(g int) {
 			defer wg.Done()
-			for pi := g; pi < len(progs); pi += 6 {
-				if pi > 60 {
-					break
-				}
-				s, err := harness.NewSet(harness.Infos(nil), "")
-				if err != nil {
-					continue
-				}
+			s, err := harness.NewSet(harness.Infos(nil), "")
+			if err != nil {
+				return
+			}
+			for k := 0; k < len(progs); k++ {
+				pi := (k + g*7) % len(progs)
 				pk := harness.Load(progs[pi].Path, progs[pi].Files)
 				if len(pk.Errs) == 0 {
 					s.VisitAll(pk)
